@@ -77,13 +77,15 @@ class Buggify:
             real = getattr(PsiContour, attr)
             saved[attr] = real
 
-            def wrapper(self, p, tangent, *, psi, width, atol):
+            def wrapper(self, p, *args, **kwargs):
+                # signature-agnostic on purpose: a refactoring that adds a parameter to a
+                # refine method must not be turned into a TypeError by the harness
                 bug.calls[name] += 1
                 if bug._should_fail(name, p):
                     bug.fired[name] += 1
                     raise SolutionError(f"buggify: {name} failed")
                 try:
-                    return real(self, p, tangent, psi=psi, width=width, atol=atol)
+                    return real(self, p, *args, **kwargs)
                 except SolutionError:
                     bug.natural_fail[name] += 1
                     raise
@@ -96,10 +98,10 @@ class Buggify:
         real_refine_point = PsiContour.refinePoint
         saved["refinePoint"] = real_refine_point
 
-        def refine_point(self, p, tangent, **kw):
+        def refine_point(self, p, *args, **kw):
             before = sum(bug.fired.values())
             try:
-                r = real_refine_point(self, p, tangent, **kw)
+                r = real_refine_point(self, p, *args, **kw)
             except SolutionError:
                 bug.exhausted += 1
                 if threading.current_thread().name.startswith("procsim-W"):
@@ -229,9 +231,9 @@ class ClockSim:
         real_ivp = eqmod.solve_ivp
         clk = self
 
-        def refine_point(self, p, tangent, **kw):
+        def refine_point(self, p, *args, **kw):
             clk._charge(p)
-            return real_rp(self, p, tangent, **kw)
+            return real_rp(self, p, *args, **kw)
 
         def solve_ivp(fun, *a, **kw):
             def charged(*fa, **fkw):
